@@ -2,6 +2,7 @@ import PanderaModel.Config
 import PanderaModel.Lemmas.Depth
 import PanderaModel.Generated.ScopeMap
 import PanderaModel.Generated.EnvConfig
+import PanderaModel.Generated.Skeletons
 /-!
 # C18 — configuration is scoped and honoured; validation depth only removes checks
 -/
@@ -36,6 +37,16 @@ example : ((Prog.ctx ⟨some false, none, none, none⟩
       (.seq (.ctx ⟨none, some .dataOnly, none, none⟩ (.seq .observe .raise)) .observe)).run
       ⟨true, none, false, false⟩)
     = ⟨⟨true, none, false, false⟩, true, [⟨false, some .dataOnly, false, false⟩]⟩ := by decide
+
+/-- the same for the code as it is now: `config_context` / `reset_config_context`, translated from
+`pandera/config.py` into the Effects IR on this run, restore the context configuration on every
+path, whichever statement of the body raises (`Effects.restores_sound`) -/
+theorem config_context_skeleton_restores :
+    Generated.resetConfigContextOk = true ∧ Eff.restores Generated.skel_configContext = true := by decide
+
+theorem config_context_source_restores {c c' : Eff.Cfg} {r : Eff.Res}
+    (hex : Eff.Exec Generated.skel_configContext c r c') : ∀ l, c'.1 l = c.1 l :=
+  Eff.restores_sound config_context_skeleton_restores.2 hex
 
 /-! ### environment variables (regenerated from `_config_from_env_vars`) -/
 
